@@ -33,8 +33,8 @@
    Design layer: ImplDoseId / ImplTad transcribe the vectorised algorithm of
    pharmpy.modeling.data (cumsum + tie adjustment loop; sort by dose id + diff/cumsum);
    TLC proves them equal to the walker on every dataset of the bound, outside the
-   divergence classes named in KnownDivergence (which are defects of the algorithm
-   that TLC predicted and the driver then reproduced on the real code).          *)
+   divergence class TimeRecurs (a defect of the algorithm that TLC predicted and
+   the driver then reproduced on the real code: finding C14-F9).                 *)
 EXTENDS Integers, Sequences, FiniteSets, TLC, Json
 
 CONSTANTS MaxLen,     \* maximal number of records
